@@ -165,9 +165,14 @@ const char* kSrcOutNames[] = {"value", "error", "exception", "dropped/throws"};
 
 enum class Sink : std::uint8_t { Get, WaitTouch, Detach, DetachInline, DetachOn, kCount };
 const char* kSinkNames[] = {"Get", "Wait+Touch", "Detach()", "DetachInline(f)", "Detach(e,f)"};
-enum class Start : std::uint8_t { ToFutureGet, ToFutureOnGet, Get, Detach, DetachOn, AsInnerTask, DropUnstarted, CoAwait, kCount };
+enum class Start : std::uint8_t { ToFutureGet, ToFutureOnGet, Get, Detach, DetachOn, AsInnerTask, DropUnstarted, CoAwait, AwaitKeep, AwaitTake, kCount };
+constexpr bool StartsThroughHere(Start s) {
+  // the head is started by its consumer calling Here()/Next() on it (see the known finding D3)
+  return s == Start::AsInnerTask || s == Start::CoAwait || s == Start::AwaitKeep || s == Start::AwaitTake;
+}
 const char* kStartNames[] = {"ToFuture().Get", "ToFuture(e).Get", "Get", "Detach()", "Detach(e)", "returned from an eager callback", "dropped unstarted",
-                             "co_await in a coroutine"};
+                             "co_await in a coroutine", "co_await Await(task), Touch const&, destroy the completed task",
+                             "co_await Await(task), Touch&&"};
 
 // executors: index -> what the proxy wraps
 enum Ex : std::uint8_t { kExInline = 0, kExPool = 1, kExStrand = 2, kExStopped = 3, kExPool2 = 4, kExManual = 5, kExCount = 6 };
@@ -403,7 +408,7 @@ class Case final : public sim::CaseBase {
           s.beh = kPlain;
         }
       }
-      if (p.lazy && (p.start == Start::AsInnerTask || p.start == Start::CoAwait)) {
+      if (p.lazy && StartsThroughHere(p.start)) {
         p.start = Start::Get;
       }
     }
@@ -455,7 +460,7 @@ class Case final : public sim::CaseBase {
   // offending callback must actually be invoked according to the reference model (faults are never combined with it).
   const char* Known() const final {
     static const char* kKey = "inner-task-head-schedule-or-lazycontract";
-    if (prog.lazy && (prog.start == Start::AsInnerTask || prog.start == Start::CoAwait)) {
+    if (prog.lazy && StartsThroughHere(prog.start)) {
       const Src s = prog.src;
       if (s == Src::ScheduleT || s == Src::ScheduleInline || s == Src::ScheduleVoid || s == Src::LazyContractNow || s == Src::LazyContractLater) {
         return kKey;
@@ -1053,6 +1058,13 @@ class Case final : public sim::CaseBase {
       case Start::CoAwait:
         Final<V>(AwaitIt<V>(std::move(t)).Get(), "Get of a coroutine that co_awaited the task");
         break;
+      case Start::AwaitKeep:
+        SIM_PROBE("completed_task_destroyed");
+        Final<V>(AwaitLvalue<V>(std::move(t), false).Get(), "Get of a coroutine that did co_await Await(task) and copied Touch()");
+        break;
+      case Start::AwaitTake:
+        Final<V>(AwaitLvalue<V>(std::move(t), true).Get(), "Get of a coroutine that did co_await Await(task) and moved Touch() out");
+        break;
       default: {
         SIM_FAULT("task_dropped_unstarted");
         auto dead = std::move(t);
@@ -1069,6 +1081,21 @@ class Case final : public sim::CaseBase {
     } else {
       co_return co_await std::move(t);
     }
+  }
+
+  // the task is started and awaited through an lvalue: it stays valid and becomes ready; then its result is either copied
+  // (and the completed task destroyed at the end of the coroutine) or moved out
+  template <typename V>
+  static Fut<V> AwaitLvalue(Tsk<V> t, bool take) {
+    co_await yaclib::Await(t);
+    if (!t.Valid() || !t.Ready()) {
+      sim::Fail("WAIT_NOT_READY", "co_await Await(task) resumed but the task is not valid and ready");
+      co_return yaclib::StopTag{};
+    }
+    if (take) {
+      co_return std::move(t).Touch();
+    }
+    co_return std::as_const(t).Touch();
   }
 
   // ------------------------------------------------------------------------------------------------- Run
